@@ -300,6 +300,32 @@ def pack_rule(ctx, crate):
     ctx.report(clause, "pack:base-cells-never-merged", has0, "the search for a first sibling skips cells with depth == 0", at=b.span, kind="N")
 
 
+def lower_depth_resume(ctx, crate):
+    """N: `to_lower_depth` scans the entries in two loops: the first stops on the first cell deeper
+    than the new depth (kept aside as the pending coarse cell), the second must resume on the very
+    next entry: its range is (i + 1)..len with i the index the first loop stopped at.  Resuming one
+    further drops an entry of the coverage."""
+    from rules.common import loop_var_range
+    clause = "lower-depth"
+    fn = M + "BMOCBuilderUnsafe::to_lower_depth"
+    b = ctx.anchor(crate, fn, clause)
+    if b is None: return
+    e = Engine(crate); e.run(fn); ctx.functions |= e.visited_fns
+    rng = [ev.args[0] for ev in e.events.values() if len(ev.site) == 2 and ev.callee and "into_iter" in ev.callee and ev.args and ev.args[0][0] == 'agg' and ev.args[0][1] == 'adt:std::ops::Range']
+    if len(rng) != 1:
+        # another loop idiom: this narrow rule does not apply (it is not a floor of the property)
+        ctx.not_decided("to_lower_depth: where the second scan resumes (no single `a..b` loop found)"); return
+    ok = False; why = ""
+    if len(rng) == 1:
+        start, end = rng[0][3]
+        one = lambda t: t[0] == 'c' and t[2] == 1
+        base = start[3] if start[0] == 'op' and start[1] == 'add' and one(start[4]) else (start[4] if start[0] == 'op' and start[1] == 'add' and one(start[3]) else None)
+        cnt = loop_var_range(e, base) if base is not None and base[0] == 'phi' else None
+        ok = cnt is not None and cnt[0][0] == 'c' and cnt[0][2] == 0
+        why = "the second scan runs over (i + 1)..len, i the counter of the first scan (from 0)" if ok else "the second scan starts at %s: not one past the index the first scan stopped at" % show(start)[:60]
+    ctx.report(clause, "to_lower_depth:second-scan-resumes-at-i+1", ok, why, at=b.span, kind="N")
+
+
 def run(ctx):
     crate = ctx.crate("rel")
     if ctx.tier == "thorough":
@@ -313,6 +339,7 @@ def run(ctx):
     push_invariant(ctx, crate)
     merge_level_cap(ctx, crate)
     pack_rule(ctx, crate)
+    lower_depth_resume(ctx, crate)
     ctx.not_decided("coverage equality for all push sequences and capacities; fixpoint of pack; largest_lower_cell_sequence_len arithmetic (quantify over sequences)")
     from rules import controls
     controls.bits_controls(ctx)
